@@ -16,7 +16,7 @@ LEVEL_TEXT = ("Generated HITL programs (1-4 concurrent waits, waiting step with 
 LEVEL_NOTE = "Trusted: virtual clock, recorder inside the generated step bodies (the public ctx.wait_for_event boundary), reducer probe for tick order."
 DESIGN_REF = "§5 C10"
 RULE = "case = wait-family program + responder script (+ resume point); distinct = tick-order signature hash; non-trivial = >=1 wait returned or timed out"
-REQUIRED_REACH = ["waiter_eval", "wait_result_eval", "wait_timeout_seen", "waiter_event_eval", "resumed_case", "resumed_with_open_waiter", "double_cycle"]
+REQUIRED_REACH = ["waiter_eval", "wait_result_eval", "wait_timeout_seen", "waiter_event_eval", "resumed_case", "resumed_with_open_waiter", "double_cycle", "resumed_waiter_event_eval", "resumed_with_opaque_requirement"]
 ASSUMPTIONS = ["programs never fail after a successful wait, so every wait_for_event return is a completion"]
 FAMILIES = [("wait", 4), ("waitsink", 1)]
 
@@ -117,6 +117,18 @@ def _run_resumed(case2, acc):
         acc.inconclusive.append(f"harness error in resumed case seed={case2['seed']}: {tr2.errors[0][:300]}")
         return
     oracles.c10(tr2, acc, {"case": case2, "phase": "resumed"})
+    # "published once per waiter id" across the serialize/resume boundary: a waiter that is already registered in the snapshot had its
+    # waiter_event published by the run that registered it; when the resumed run re-runs the step (to re-register non-JSON
+    # requirements) the same waiter id registers again and must NOT be announced a second time
+    open_wids = {cw["waiter_id"] for w in snap["workers"].values() for cw in w["collected_waiters"]}
+    for wid in sorted(open_wids):
+        acc.hit("resumed_waiter_event_eval")
+        again = [e for e in tr2.stream if e["type"] in ("Ask", "Ask2") and e.get("uid") == f"ask:{wid}"]
+        if again:
+            acc.violation({"mech": "waiter_event_published_again_after_resume", "resumed": True},
+                          f"waiter {wid} was registered (and announced) before the snapshot; the resumed run published its waiter_event {len(again)} more time(s)",
+                          {"case": case2, "phase": "resumed"})
+            break
     acc.sig(oracles.sig_of_trace(tr2))
 
 
